@@ -24,6 +24,8 @@ const (
 	SessionSMSSecret     = "sms_secret"
 	SessionSMSLast       = "sms_last"
 	SessionSMSPendingPID = "sms_pending"
+	// SessionSMSSentTo is the number the code in SessionSMSSecret was sent to
+	SessionSMSSentTo = "sms_sent_to"
 )
 
 // Form value constants
@@ -219,6 +221,7 @@ func (s *SMS) SendCodeToUser(w http.ResponseWriter, r *http.Request, pid, number
 
 	authboss.PutSession(w, SessionSMSLast, strconv.FormatInt(time.Now().UTC().Unix(), 10))
 	authboss.PutSession(w, SessionSMSSecret, code)
+	authboss.PutSession(w, SessionSMSSentTo, number)
 
 	logger.Infof("sending sms for %s to %s", pid, number)
 	if err := s.Sender.Send(r.Context(), number, code); err != nil {
@@ -398,6 +401,16 @@ func (s *SMSValidator) validateCode(w http.ResponseWriter, r *http.Request, user
 		code, ok := authboss.GetSession(r, SessionSMSSecret)
 		if !ok || len(code) == 0 {
 			return errors.Errorf("no code in session for user %s", user.GetPID())
+		}
+
+		// A code only proves possession of the phone it was sent to: the number
+		// being enrolled when confirming, the user's own number otherwise.
+		expected := user.GetSMSPhoneNumber()
+		if s.Page == PageSMSConfirm {
+			expected, _ = authboss.GetSession(r, SessionSMSNumber)
+		}
+		if sentTo, ok := authboss.GetSession(r, SessionSMSSentTo); ok && sentTo != expected {
+			return errors.Errorf("code in session was not sent to the number of user %s", user.GetPID())
 		}
 
 		verified = 1 == subtle.ConstantTimeCompare([]byte(inputCode), []byte(code))
